@@ -15,7 +15,7 @@ PARTIAL = ["Berlekamp-Massey: modelled (Kaira/BM.lean: syndromes, tabular BM, Ch
            "proved: the correction depends on the syndromes only, syndromes are additive and vanish on code words of a certified BCH instance, hence "
            "decoding (code word + e) = decoding e on the zero code word for EVERY instance (bm_reduction); full correctness within capability is a "
            "theorem where the kernel can run the decoder on every light pattern (n <= 15, t <= 1: bm_corrects_small); for the larger instances the light "
-           "patterns on the zero code word are run through the compiled model and the implementation by the check (exhaustive where <= 700 / 20000 patterns) - "
+           "patterns on the zero code word are run through the compiled model and the implementation by the check (exhaustive where <= 700 / 3000 patterns) - "
            "a test of the model lifted by the theorem, not a proof that the BM recursion finds the locator",
            "syndrome-table decoder, Hamming inverse and RM nearest-codeword inverse: tied to executable models by the correspondence; "
            "'nearest' is proved for the ML model only"]
@@ -224,8 +224,8 @@ def corr(ctx):
                     ops.append(Op("bmdec %s %d %d %d %s" % (name, PP, mm, tt, bits(w)), o, nontrivial=bool(wt),
                                   info={"site": site, "config": dict(cfg, sent=bits(m_), weight=wt)}, prop_ok=(o == bits(m_))))
                 light = [p_ for wgt in range(0, tt + 1) for p_ in itertools.combinations(range(n), wgt)]
-                if len(light) > (20000 if ctx.thorough else 700):
-                    light = [()] + ctx.rng.sample(light[1:], (20000 if ctx.thorough else 700) - 1)
+                if len(light) > (3000 if ctx.thorough else 700):
+                    light = [()] + ctx.rng.sample(light[1:], (3000 if ctx.thorough else 700) - 1)
                 LW = [[1 if j in set(p_) else 0 for j in range(n)] for p_ in light]
                 for w, o, p_ in zip(LW, _dec(fn, LW), light):
                     ops.append(Op("bmdec %s %d %d %d %s" % (name, PP, mm, tt, bits(w)), o, nontrivial=bool(p_),
